@@ -7,14 +7,25 @@ name replaced by its index in Gen/GenNetworks.v:all_networks and without the <sh
   select <net> <wk> <view> <amount> <variance|N> <minconf> <maxutxos|N>
   calcfee <net> <vsize> <fpk>
   bump <rep> <net> <wk> <view> <outs> <inputs> <fee> <k> <farg> <earg> <o1>
+  hist <net> <wk> <pub> <blockcount> <op> <op> ...          a HISTORY of operations on ONE wallet (model: Model/TxCreateHistory.v)
+      c~outs~inputs~fee~minc~maxu~k~keys~acct~lt~rbf~shuf~o1                     transaction_create
+      s~outs~inputs~fee~minc~maxu~k~keys~acct~lt~rbf~shuf~o1~o2~bc~pk~via        send (via s) / send_to (via t)
+      w~single~targets~fee~fpk~minc~maxu~keys~acct~lt~rbf~o1~o2~bc~pk            sweep
+      u~via~acct~rescan~listing      utxos_update through the provider (via p) or the utxos= argument (via x)
+      a~id:value:conf:key            utxo_add            r   re-open the wallet
+      b~fee~extra~bc                 WalletTransaction.bumpfee on the transaction returned by the last s / w
+    inputs = N | - | id:shape:key:claim,...  shape 2 (txid,n) 3 (+key_id) 4 (+value) a (+address) o (Input object);
+    key = N | X (a key id that does not exist) | index; keys = - | i<index> | l<index>,...; acct = N | 0 | 1;
+    listing = id:value:conf:key;...   ids >= 1000 are outputs of the wallet's own broadcast transactions
 tokens: wk = L|S|P,multisig,nkeys,nreq,single; view = id:value:conf:spent;…; outs = scripthex:amount:change;…;
 inputs = N | - | id,id…; fee = none|named|i<int>; oracle = fpk,fpk2,r1,r2,w1/w2/…
 """
 import json, math, os, re
-from core import Case, RUN, COQ
+from core import Case, RUN, COQ, load_known
+from props import c07_hist as H
 
 PROP = 'C07'
-COQ_FILES = ['Extract/C07.v', 'Properties/C07.v']
+COQ_FILES = ['Extract/C07.v', 'Proofs/TxCreateHistory.v', 'Properties/C07.v']
 DRIVER = 'c07'
 IMPL = 'harness/impl/c07_impl.py'
 ALLOWED_AXIOMS = []
@@ -37,10 +48,25 @@ ASSUMPTIONS = [
     'signing, value_to_satoshi for non-integer amounts, key derivation for change keys (change outputs are c<i> = i-th '
     'change key), uncompressed keys, wallets mixing witness types',
     'domain: number_of_change_outputs >= 0 (negative values give Err EDomain in the model)',
+    'histories (request kind hist, coq/Model/TxCreateHistory.v): the state is the database content (output rows in insertion '
+    'order with key / account / transaction-row attributes, inputs of stored wallet transactions); the provider listing of '
+    'every utxos_update, the utxo_add arguments and the pre-bump transaction state (inputs, outputs in their actual order, fee, '
+    'signed vsize, whether the re-signed transaction verifies) are arguments of the operations and quantified universally in '
+    'the theorems; ids >= 1000 name the outputs of the wallet\'s own broadcast transactions (block reserved per broadcast), a '
+    'listing entry for one that does not exist is ignored on both sides',
+    'histories, environment: bitcoinlib.wallets.Service is a stub: sendrawtransaction accepts and answers with the '
+    'transaction id computed by the adapter itself, getutxos answers the whole listing of the round at the first question '
+    '(so the insertion order is the listing order), blockcount is the number named in the request; a transaction is pushed '
+    'iff broadcast was requested and all private keys were at hand (wallet keys or priv_keys)',
+    'histories, domain: input_key_id names keys of the requested account; recipients are never keys of the wallet; an '
+    'unknown outpoint is named with the same claimed value wherever it occurs; multisig wallets: no account 1, fee bumps and '
+    'unknown-outpoint inputs only while the corresponding known classes are recorded',
 ]
-RULE = ('real wallets (sqlite copy per case) x random UTXO views x requests; streams: calculate_fee boundary/random, '
-        'select_inputs, transaction_create, send, sweep, bumpfee; a case is non-trivial when the implementation returns a '
-        'transaction; distinct by request')
+RULE = ('real wallets (sqlite copy per case) x random UTXO views x requests; streams: histories on one wallet (broadcast -> '
+        'utxos_update/utxo_add/reopen/bumpfee -> further creations; explicit inputs in every accepted shape with disagreeing '
+        'key/value; send/send_to/sweep with every argument non-default on UTXO sets with a decoy), calculate_fee '
+        'boundary/random, select_inputs, transaction_create, send, sweep, bumpfee; a case is non-trivial when the '
+        'implementation returns a transaction; distinct by request')
 
 
 # ---------------------------------------------------------------- network table (order of all_networks)
@@ -283,12 +309,20 @@ def gen_cases(rng, tier):
             fee0, k, farg, earg, net, wk = 500, 1, 0, 1000, 'bitcoinlib_test', 'S,0,1,1,0'
         cs.append(Case('bump', 'bump 1 %s %s %s %s %s i%d %d %d %d %s' % (
             net, wk, view_tok(view), ';'.join(outs), ','.join(str(u[0]) for u in inp), fee0, k, farg, earg, o)))
+    # --- histories on one wallet (sequences of operations, explicit-input shapes, every argument of send/sweep)
+    cs = H.gen_hist_cases(rng, tier, known_status('explicit_input_not_in_wallet'),
+                           known_status('bumpfee_replacement_unverified')) + cs
     # --- recorded witnesses (corpus)
     w17 = '0014' + '11' * 20
     cs.insert(0, Case('create', 'create 1 bitcoinlib_test S,0,1,1,0 0:100000000:5:0 %s:99990000:0 0 i50000 1 N 1 0 0,0,0,0,-' % w17))
     cs.insert(1, Case('send', 'send 1 bitcoinlib_test S,0,1,1,0 0:100000000:5:0 %s:99990000:0 0 i50000 1 N 1 0 0,0,0,0,- 0,0,0,0,-' % w17))
     cs.insert(2, Case('create', 'create 1 bitcoinlib_test S,0,1,1,0 0:100000000:5:0 %s:100000500:0 0 none 1 N 1 0 33333,33333,0,0,-' % w17))
     return cs
+
+
+def known_status(cid):
+    """a class is exercised by the generators only while it is recorded as `known` (known_findings.json / VERIF_EXTRA_KNOWN)"""
+    return any(e.get('status') == 'known' and (e.get('class') == cid or e.get('id') == cid) for e in load_known(PROP))
 
 
 # ---------------------------------------------------------------- model request / comparison
@@ -307,6 +341,8 @@ def _load_side():
 def model_req(c):
     t = c.req.split(' ')
     k = t[0]
+    if k == 'hist':
+        return H.model_req_hist(c, _load_side())
     if k == 'calcfee':
         return 'calcfee %d %s %s' % (NETS.index(t[1]), t[2], t[3])
     if k == 'select':
@@ -352,6 +388,8 @@ def _canon(main, c):
 
 
 def same(c, io, mo):
+    if c.kind == 'hist':
+        return H.same_hist(c, io, mo)
     main = io.split(' | ')[0]
     if c.kind == 'bump' and main.startswith('NOTX'):
         return mo == 'nobump' or True
@@ -359,6 +397,8 @@ def same(c, io, mo):
 
 
 def is_trivial(c, out):
+    if c.kind == 'hist':
+        return ' @ OK fee=' not in out
     return not out.startswith('OK') and not out[:1].isdigit()
 
 
@@ -429,6 +469,8 @@ def violated(c, io):
     k = c.kind
     main = io.split(' | ')[0]
     bad = []
+    if k == 'hist':
+        return H.violated_hist(c, io)
     if io.startswith('CRASH') or io == 'BADREQ':
         return [('crash', io[:100])]
     if k in ('calcfee', 'select'):
@@ -568,7 +610,12 @@ def violated(c, io):
 
 KNOWN_TAGS = {
     # tag -> (class id, predicate on the case that delimits the class)
-    'explicit_inputs': ('explicit_inputs_unchecked', lambda c, t: c.kind in ('create', 'send') and t[6] not in ('N', '-')),
+    # (history requests: the oracle gives the tag explicit_inputs / explicit_unknown only to operations whose
+    #  input_arr is an explicit list / names an outpoint unknown to the wallet together with an address and a value)
+    'explicit_inputs': ('explicit_inputs_unchecked',
+                        lambda c, t: (c.kind in ('create', 'send') and t[6] not in ('N', '-')) or c.kind == 'hist'),
+    'explicit_unknown': ('explicit_input_not_in_wallet', lambda c, t: c.kind == 'hist'),
+    'replacement_unsent': ('bumpfee_replacement_unverified', lambda c, t: c.kind == 'hist' and t[2].split(',')[1] == '1'),
     'rate': ('fee_rate_checked_on_estimate', lambda c, t: True),
 }
 
@@ -577,6 +624,7 @@ def prop_check(c, io):
     b = violated(c, io)
     if not b:
         return None
+    b = sorted(b, key=lambda x: x[0] in KNOWN_TAGS)          # what no recorded class explains comes first
     return '; '.join('[%s] %s' % x for x in b[:3])
 
 
@@ -595,7 +643,8 @@ def _known(cid):
     return pred
 
 
-KNOWN_CLASSES = {cid: _known(cid) for cid in ('explicit_inputs_unchecked', 'fee_rate_checked_on_estimate')}
+KNOWN_CLASSES = {cid: _known(cid) for cid in ('explicit_inputs_unchecked', 'fee_rate_checked_on_estimate',
+                                               'explicit_input_not_in_wallet', 'bumpfee_replacement_unverified')}
 
 
 def reproduce_known(entry, rundir):
